@@ -833,8 +833,44 @@ func c05Colls(o *osm.OSM) string {
 	return strings.Join(parts, ";")
 }
 
+// c05FracNotes gives the note dates of a value a fractional second: the XML note date format has whole seconds (so
+// the shared value generator makes whole seconds), osmjson writes note dates like any other time
+func c05FracNotes(v interface{}, seed uint64) {
+	frac := func(ns osm.Notes) {
+		for _, n := range ns {
+			if !n.DateCreated.IsZero() {
+				n.DateCreated.Time = n.DateCreated.Add(time.Duration(1+seed%999) * time.Millisecond)
+			}
+			if !n.DateClosed.IsZero() {
+				n.DateClosed.Time = n.DateClosed.Add(time.Duration(1+seed%997) * time.Microsecond)
+			}
+			for _, c := range n.Comments {
+				if !c.Date.IsZero() {
+					c.Date.Time = c.Date.Add(time.Duration(1+seed%991) * time.Millisecond)
+				}
+			}
+		}
+	}
+	if seed%2 == 0 {
+		return
+	}
+	switch x := v.(type) {
+	case *osm.Note:
+		frac(osm.Notes{x})
+	case *osm.OSM:
+		frac(x.Notes)
+	case *osm.Change:
+		for _, o := range []*osm.OSM{x.Create, x.Modify, x.Delete} {
+			if o != nil {
+				frac(o.Notes)
+			}
+		}
+	}
+}
+
 func c05RoundTrip(kind string, seed uint64, mode int) (string, *Violation) {
 	v := c04Value(kind, seed)
+	c05FracNotes(v, seed)
 	back := c04Fresh(kind)
 	var data []byte
 	var merr, uerr error
